@@ -900,7 +900,12 @@ pub fn collect_defs(s: &RS, out: &mut Defs) {
         }
         RS::Array(t) | RS::Map(t) => collect_defs(t, out),
         RS::Union(bs) => bs.iter().for_each(|b| collect_defs(b, out)),
-        RS::Logical(_, _) => {}
+        // a logical type over a fixed is a named definition too (registered with its annotation)
+        RS::Logical(_, base) => {
+            if let RS::Fixed { full, .. } = &**base {
+                out.insert(full.clone(), s.clone());
+            }
+        }
         _ => {}
     }
 }
